@@ -6,7 +6,7 @@ import json
 import multiprocessing
 import os
 
-from common import Coverage, Driver, rng, violation
+from common import Coverage, Driver, coq_eval, rng, violation
 
 VKINDS = ["ok", "wrongid", "badtag", "badsig", "auth", "invalid", "garbage", "peerclose", "peerreset", "http4xx"]
 TEN_S = 40960
@@ -46,6 +46,49 @@ def run_impl_many(scs, procs=14):
     ctx = multiprocessing.get_context("fork")
     with ctx.Pool(procs) as pool:
         return pool.map(_impl_worker, scs, chunksize=max(1, len(scs) // (procs * 8)))
+
+
+# ------------------------------------------------------------------ kernel cross-check of the extracted driver
+def coq_scenario(sc):
+    """The scenario as a Gallina term `run hosts subs dials verifs controls end`."""
+    def nat_list(l):
+        return "[" + "; ".join(str(x) for x in l) + "]"
+    dials = "[" + "; ".join("DRefused" if d[0] == "refused" else "DHang" if d[0] == "hang" else f"DConnect {d[1]}"
+                            for d in sc.get("dials", [])) + "]"
+    vk = dict(ok="VOk", wrongid="VWrongId", badtag="VBadTag", badsig="VBadSig", auth="VAuth", invalid="VInvalid",
+              garbage="VGarbage", peerclose="VPeerClose", peerreset="VPeerReset", http4xx="VHttp4xx")
+    ver = "[" + "; ".join(f"({vk[v[0]]}, {v[1] if len(v) > 1 else 0}%N)" for v in sc.get("verifies", [])) + "]"
+    cs = []
+    for t, k, a in sorted(sc.get("controls", []), key=lambda c: c[0]):
+        term = dict(ensure=f"Ensure {a}", cancel=f"Cancel {a}", soon="Soon", drop=f"Drop {a}", dropreset=f"DropReset {a}",
+                    close="Close", shutdown="Shutdown").get(k) or f"Zeroconf {nat_list(a)}"
+        cs.append(f"({t}%N, {term})")
+    return (f"(run {nat_list(range(sc['hosts']))} {'true' if sc.get('subs') else 'false'} {dials} {ver} "
+            f"[{'; '.join(cs)}] {sc['end']}%N)")
+
+
+def vm_crosscheck(ctx, pid, scs, model_answers):
+    """Evaluate a few scenarios with vm_compute inside Coq and compare a digest of the final state with
+    what the extracted OCaml driver printed: takes extraction + driver glue out of the single-point-of-trust."""
+    import c10sim
+    body = ["From Coq Require Import List NArith.", "From AHK Require Import Model.Reconnect Proofs.Reconnect.",
+            "Import ListNotations.",
+            "Definition digest (s : st) := (length (trace s), count_dials (trace s), opn s, connected s, ntasks s, tie s, N.to_nat (now s / 4096))."]
+    for i, sc in enumerate(scs):
+        body.append(f"Eval vm_compute in (digest {coq_scenario(sc)}).")
+    out = coq_eval(ctx["verif"], pid, "crosscheck", "\n".join(body) + "\n", timeout=300)
+    blocks = [b for b in out.split("= ")[1:]]
+    bad = []
+    for sc, blk, ans in zip(scs, blocks, model_answers):
+        txt = " ".join(blk.split(":")[0].split())
+        tie, fuel, tr = parse_model(ans)
+        end = [e for e in tr if e[1] == "snap" and e[2] == "end"][-1]
+        nd = sum(1 for e in tr if e[1] == "dial")
+        opn = "[" + "; ".join(str(x) for x in end[3]) + "]" if end[3] else "[]"
+        want = f"({len(tr)}, {nd}, {opn}, {'true' if end[4] else 'false'}, {end[5]}, {'true' if tie else 'false'}, {end[0] // 4096})"
+        if txt.replace("%nat", "") != want:
+            bad.append((sc, txt, want))
+    return len(blocks), bad
 
 
 # ------------------------------------------------------------------ generators
@@ -336,6 +379,14 @@ def run_core(ctx, pid, oracle, gens, corr_name):
                  sample=dict(scenario=scj, trace_head=itrace[:12]) if cov.evaluations % 1499 == 0 else None,
                  family=sc.get("tag", "?").split("/")[0], hosts=sc["hosts"], attempts=min(ndial, 20),
                  controls=len(sc.get("controls", [])))
+    if not ctx.get("replay"):
+        step = max(1, len(scs) // 6)
+        sample = [i for i in range(0, len(scs), step)][:6]
+        n, bad = vm_crosscheck(ctx, pid, [scs[i] for i in sample], [model[i] for i in sample])
+        cov.extra["vm_compute_crosscheck"] = dict(scenarios=n, disagreements=len(bad))
+        for sc, got, want in bad:
+            viols.append(violation("extraction-vs-vm_compute", f"extracted driver and vm_compute disagree: coq {got} driver {want}",
+                                   False, scenario={k: v for k, v in sc.items() if k != "tag"}))
     cov.extra["ties_skipped"] = ties
     cov.extra["tie_rule"] = ("scenarios in which a control event or the end falls on the same tick as an internal timer are "
                              "not compared (the real scheduler's order is unspecified there); counted here")
